@@ -308,6 +308,27 @@ def explore(ctx, depth):
                       {'raised': True}, what='a line with more cells than live spine paths is not rejected with an exception')
             if 'err' in r and 'err' in model and r != model:
                 ctx.check({'text': text, 'clause': 'surplus cell: exception class'}, r, model, None, what='exception class differs from the model')
+            # every way into the library rejects the line: the importer class, the file entry points, the deprecated `create` / `read`, `concat`
+            # (round 6, C02_r6_2: a "tolerant" mode switched on by default on the legacy path)
+            import warnings as _w, tempfile as _tf, os as _os
+            from kernpy.core.importer import Importer as _Imp
+            fd, pth = _tf.mkstemp(suffix='.krn', prefix='kernverif_c02s_')
+            with _os.fdopen(fd, 'w', encoding='utf-8', newline='') as fh:
+                fh.write(text)
+            try:
+                with _w.catch_warnings():
+                    _w.simplefilter('ignore')
+                    ways = {'Importer.import_string': lambda: _Imp().import_string(text), 'Importer.import_file': lambda: _Imp().import_file(pth),
+                            'kernpy.load': lambda: kp.load(pth), 'kernpy.create': lambda: kp.create(text), 'kernpy.read': lambda: kp.read(pth),
+                            'kernpy.concat': lambda: kp.concat([text]), 'kernpy.loads(strict)': lambda: kp.loads(text, strict=True) if 'strict' in kp.loads.__code__.co_varnames else kp.loads(text)}
+                    for wname, fn in ways.items():
+                        rw = call(lambda: fn() and True)
+                        ctx.seen({'clause': 'surplus cell through ' + wname, 'surplus': cell}, True)
+                        if 'err' not in rw:
+                            ctx.fail({'text': text, 'line': i + 1, 'surplus': cell, 'entry_point': wname, 'clause': 'surplus cell: every entry point'},
+                                     'a line with more cells than live spine paths is not rejected with an exception through this entry point', impl=rw)
+            finally:
+                _os.unlink(pth)
 
 
 def replay(ctx, payload):
